@@ -1,4 +1,4 @@
-"""KNOWN FINDING C14-preempt-blocked: pre-emptive priorities at a node whose customers can be blocked.
+"""C14, C02 (D32, formerly listed as findings C14-preempt-blocked and C02-preempt-blocked; fixed by /repo 49d38f6): pre-emptive priorities at a node whose customers can be blocked.
 The high-priority arrival pre-empts a customer that has finished service and is blocked; when the blocked
 customer is later released, write_individual_record dereferences individual.server (False)."""
 import ciw
